@@ -1050,7 +1050,13 @@ class OdeSystem(object):
                         self.counter -= 1
 
                         sol_tuple = (self.__sol, prev_time, next_time)
-                        active_events, roots, end_int, evs = handle_events(sol_tuple, events, self.constants, direction, is_terminal, (requires_dstate,))
+                        try:
+                            active_events, roots, end_int, evs = handle_events(sol_tuple, events, self.constants, direction, is_terminal, (requires_dstate,))
+                        except BaseException:
+                            # the step is not recorded until its events have been examined: its dense-output pieces go with it
+                            while len(self.__sol) > __pre_length:
+                                self.__sol.remove_interpolant(-1 if dTime >= 0 else 0)
+                            raise
 
                         if self.counter + len(roots) + 1 >= len(self.__y):
                             total_steps = self.__alloc_space_steps(tf - dTime) + 1 + len(roots)
@@ -1074,7 +1080,8 @@ class OdeSystem(object):
                         if end_int:
                             # the step that contains the terminal event is rolled back and re-integrated up to the event:
                             # its dense-output piece goes with it
-                            self.__sol.remove_interpolant(-1 if dTime >= 0 else 0)
+                            while len(self.__sol) > __pre_length:
+                                self.__sol.remove_interpolant(-1 if dTime >= 0 else 0)
                             self.integrate(roots[-1])
                             self.__int_status = 2
                         else:
